@@ -213,6 +213,69 @@ fn branch_text(c: &BranchCase) -> Option<String> {
     })
 }
 
+
+/// Part (d): a branch inside a relocated segment (`pc` differs from `start`). The displacement is a
+/// matter of run addresses only, so the segment's bytes equal those of the same body assembled in
+/// place (expected bytes computed here, not taken from another run).
+fn check_relocated_branch(ctx: &Ctx, isa: &Isa, m: &'static str, d: i64, forward: bool, start: i64, pc: i64) {
+    let mut body = String::new();
+    let mut expect: Vec<u8> = vec![];
+    if forward {
+        if d < 0 {
+            return;
+        }
+        body.push_str(&format!("{} l\n", m));
+        expect.push(isa.branch_opcode(m));
+        expect.push(d as u8);
+        for _ in 0..d {
+            body.push_str(".byte 0\n");
+            expect.push(0);
+        }
+        body.push_str("l: nop\n");
+        expect.push(0xea);
+    } else {
+        if d > -2 {
+            return;
+        }
+        body.push_str("l:\n");
+        for _ in 0..(-d - 2) {
+            body.push_str(".byte 0\n");
+            expect.push(0);
+        }
+        body.push_str(&format!("{} l\n", m));
+        expect.push(isa.branch_opcode(m));
+        expect.push((d as i8) as u8);
+    }
+    let text = format!(".define segment {{\nname = \"r\"\nstart = ${:04x}\npc = ${:04x}\n}}\n.segment \"r\" {{\n{}}}\n", start, pc, body);
+    ctx.eval(|| json!(text));
+    ctx.nontrivial(fnv_str(&format!("reloc|{}|{}|{}|{:x}|{:x}", m, d, forward, start, pc)));
+    let dir = if forward { "fwd" } else { "bwd" };
+    let built = match run_text(&text) {
+        Ok(b) => b,
+        Err(p) => {
+            ctx.finding(Finding::new(format!("branch:panic:{}", p.site), format!("panic {} at {} for {:?}", p.message, p.site, text), case_json("branch", &text)));
+            return;
+        }
+    };
+    let in_range = (-128..=127).contains(&d);
+    if in_range {
+        let got = built.segs.iter().find(|s| s.name == "r").map(|s| s.bytes.clone());
+        if !built.ok() || got.as_ref() != Some(&expect) {
+            ctx.finding(Finding::new(
+                format!("branch:{}:{}:relocated-segment:{}", if built.ok() { "wrong-bytes" } else { "rejected" }, dir, d),
+                format!("in a segment stored at ${:04x} that runs at ${:04x} a branch with distance {} must assemble to {}; got ok={} {:?} {}", start, pc, d, hex_bytes(&expect), built.ok(), built.messages(), got.map(|g| hex_bytes(&g)).unwrap_or_default()),
+                case_json("branch", &text),
+            ));
+        }
+    } else if built.ok() {
+        ctx.finding(Finding::new(
+            format!("branch:accepted-out-of-range:{}:relocated-segment", dir),
+            format!("branch distance {} is outside -128..127 but the build succeeded (segment stored at ${:04x}, running at ${:04x})", d, start, pc),
+            case_json("branch", &text),
+        ));
+    }
+}
+
 fn check_branch(ctx: &Ctx, isa: &Isa, c: &BranchCase) {
     let text = match branch_text(c) {
         Some(t) => t,
@@ -581,6 +644,20 @@ pub fn run(ctx: &Ctx, replay_case: Option<&Value>) -> i32 {
     ctx.set("part_b_distances", json!(distances.len()));
     par_each(bcases, |c| check_branch(ctx, &isa, &c));
 
+    // ---- (d) relocated segments
+    let mut rcases = vec![];
+    for m in BRANCHES.iter() {
+        for d in &distances {
+            for forward in [true, false] {
+                for (start, pc) in [(0x1000i64, 0x9000i64), (0x1000, 0x1010), (0x3000, 0x0200), (0x1000, 0x0fff)] {
+                    rcases.push((*m, *d, forward, start, pc));
+                }
+            }
+        }
+    }
+    ctx.set("part_d_cases", json!(rcases.len()));
+    par_each(rcases, |(m, d, forward, start, pc)| check_relocated_branch(ctx, &isa, m, d, forward, start, pc));
+
     // ---- (c)
     let cat1 = catalogue(&isa, 1);
     let cat2 = catalogue(&isa, 2);
@@ -631,7 +708,7 @@ pub fn run(ctx: &Ctx, replay_case: Option<&Value>) -> i32 {
 
     ctx.finish(
         "exploration",
-        "(a) every (mnemonic, syntactic form, operand value class representative, radix, case) run through the real parser+codegen and compared with an ISA model generated from the opcode bit structure; non-trivial = distinct (mnemonic, form, value) with a defined expectation. (b) branch distance sweep x 3 shapes x direction x 6 anchors. (c) all ordered pairs of the statement-form catalogue x 4 separators, expected = concatenation of the bytes each form assembles to alone (differential)",
+        "(a) every (mnemonic, syntactic form, operand value class representative, radix, case) run through the real parser+codegen and compared with an ISA model generated from the opcode bit structure; non-trivial = distinct (mnemonic, form, value) with a defined expectation. (b) branch distance sweep x 3 shapes x direction x 6 anchors. (d) the same distances inside a segment whose run address (`pc`) differs from its storage address, 4 (start, pc) pairs. (c) all ordered pairs of the statement-form catalogue x 4 separators, expected = concatenation of the bytes each form assembles to alone (differential)",
         true,
         &[
             "operand values are boundary classes + 2 seed-chosen representatives, not all integers",
